@@ -570,6 +570,12 @@ func (env *SpecEnv) evalCall(e *SExpr) *Value {
 				}
 			}
 			specFail("len of %s", e.Args[0])
+		case "cap":
+			x := arg(0)
+			if x.K != VSlice {
+				specFail("cap of non-slice")
+			}
+			return scalar(x.capTerm(), ti)
 		case "fresh":
 			x := arg(0)
 			pre := env.st
